@@ -241,6 +241,8 @@ func collectStmtDeps(s Stmt, locals map[string]bool, add func(string)) {
 		if s.Value != nil {
 			collectExprDeps(s.Value, locals, add)
 		}
+	case *ConstAssertDecl:
+		collectExprDeps(s.Condition, locals, add)
 	case *IfStmt:
 		collectExprDeps(s.Condition, locals, add)
 		collectBlockDeps(s.Body, locals, add)
